@@ -100,7 +100,8 @@ theorem render_parse_variable_definition (τ : Trivia) (hτ : ∀ q, Ws (τ q)) 
     or as the `{ … }` shorthand when `sh off` says so and the operation is a plain anonymous query — and
     FragmentDefinition): wherever the rendering of a well-formed definition occurs in an input, followed by a token, the
     `ExecutableDefinition` rule succeeds with one pair on which `build_executable_definition` returns the definition with
-    the true position of every token. (`#import` lines: see the OPEN block of `Props/C07.lean`.) -/
+    the true position of every token. (`WFDef` excludes `#import` statements; they are `render_parse_import_statement` and
+    `parse_render_operation_document_full` below.) -/
 theorem render_parse_executable_definition (τ : Trivia) (hτ : ∀ q, Ws (τ q)) (sh : Nat → Bool) (d : ExecDef)
     (hwf : WFDef d) (sep : Bool) (inp : List Char) (off : Nat) (X : List Char)
     (h : inp.drop off = rDef τ sh sep off d ++ X) (hX : HeadNot trivia X) (fuel bfuel : Nat)
